@@ -12,6 +12,7 @@ reference.  A failed connect triggers a refresh since F-04b was repaired.
 import SamVerif.Proofs.Upstream
 import SamVerif.Gen.Upstream
 import SamVerif.Proofs.ClusterRef
+import SamVerif.Model.AskPair
 namespace SamVerif.Props.C04
 open SamVerif.Upstream
 
@@ -231,8 +232,56 @@ theorem code_matches_model :
 
 end SamVerif.Props.C04
 
+namespace SamVerif.Props.C04a
+open SamVerif.AskPair
+
+theorem exec_blocks (sends : List Send) : ∀ flag, ∀ r ∈ exec flag (queue sends), r.2 = true := by
+  induction sends with
+  | nil => intro flag r hr; simp [queue, exec] at hr
+  | cons s rest ih =>
+    intro flag r hr
+    cases s with
+    | direct id =>
+      simp only [queue, List.flatMap_cons, block, List.cons_append, List.nil_append, exec, Bool.not_false, Bool.true_or,
+        List.mem_cons] at hr
+      rcases hr with rfl | hr
+      · rfl
+      · exact ih false r hr
+    | redirected id =>
+      simp only [queue, List.flatMap_cons, block, List.cons_append, List.nil_append, exec, Bool.not_true, Bool.false_or,
+        List.mem_cons] at hr
+      rcases hr with rfl | hr
+      · rfl
+      · exact ih false r hr
+
+/-- **A redirected command is served by the node it was redirected to, whatever else is sent to that node** (F-04d, since cf7dbc3):
+for every sequence of sends on the shared connection — direct requests of any clients and redirected requests with their ASKING, in
+any order — every command is served; none is answered MOVED because somebody else's command took its ASKING. -/
+theorem every_command_served (sends : List Send) : ∀ r ∈ exec false (queue sends), r.2 = true :=
+  exec_blocks sends false
+
+/-- every command sent is executed exactly once, in the order of the sends -/
+theorem executed_once_in_order (sends : List Send) :
+    (exec false (queue sends)).map (·.1) = sends.map (fun s => match s with | .direct id => id | .redirected id => id) := by
+  suffices h : ∀ flag, (exec flag (queue sends)).map (·.1) = sends.map (fun s => match s with | .direct id => id | .redirected id => id) from h false
+  induction sends with
+  | nil => intro _; rfl
+  | cons s rest ih =>
+    intro flag
+    cases s <;> simp [queue, block, exec] <;> exact ih _
+
+/-- **Before cf7dbc3** ASKING and the command were two sends: another client's request for that node could be enqueued between
+them — it takes the ASKING, the redirected command is answered MOVED. -/
+theorem old_two_sends_can_be_separated :
+    exec false [.asking, .cmd 2 false, .cmd 1 true] = [(2, true), (1, false)] := by decide
+
+end SamVerif.Props.C04a
+
 #print axioms SamVerif.Props.C04.redirections_end_at_the_holder
 #print axioms SamVerif.Props.C04.no_redirect_when_table_is_current
 #print axioms SamVerif.Props.C04.code_matches_model
 #print axioms SamVerif.Props.C04.interference_only_costs_hops
 #print axioms SamVerif.Props.C04.reference_route_is_the_proven_walk
+#print axioms SamVerif.Props.C04a.every_command_served
+#print axioms SamVerif.Props.C04a.executed_once_in_order
+#print axioms SamVerif.Props.C04a.old_two_sends_can_be_separated
